@@ -1,1 +1,108 @@
 //! Hooks owned by property C18 (feature `verif-hooks`).
+//!
+//! `dump_library`: the item tree of a [`Library`] (as built by hand or by the
+//! `library!` macro) as JSON text: kind, name, parameter names, children and
+//! the import paths of every `Use` item, in item order. Rust types are shown
+//! by the label the caller gives for their `TypeId` (`?` if not listed).
+
+use std::any::TypeId;
+
+use crate::runtime::items::{Item, Library};
+
+fn quote(s: &str, out: &mut String) {
+    out.push('"');
+    for c in s.chars() {
+        match c {
+            '"' => out.push_str("\\\""),
+            '\\' => out.push_str("\\\\"),
+            c if (c as u32) < 0x20 => {
+                out.push_str(&format!("\\u{:04x}", c as u32))
+            }
+            c => out.push(c),
+        }
+    }
+    out.push('"');
+}
+
+fn label(id: TypeId, types: &[(TypeId, String)], out: &mut String) {
+    match types.iter().find(|(t, _)| *t == id) {
+        Some((_, l)) => quote(l, out),
+        None => quote("?", out),
+    }
+}
+
+fn items(list: &[Item], types: &[(TypeId, String)], out: &mut String) {
+    out.push('[');
+    for (k, item) in list.iter().enumerate() {
+        if k > 0 {
+            out.push(',');
+        }
+        match item {
+            Item::Function(f) => {
+                out.push_str("{\"fn\":");
+                quote(f.ident.as_str(), out);
+                out.push_str(",\"params\":[");
+                for (j, p) in f.params.iter().enumerate() {
+                    if j > 0 {
+                        out.push(',');
+                    }
+                    quote(p.as_str(), out);
+                }
+                out.push_str("]}");
+            }
+            Item::Type(t) => {
+                out.push_str("{\"type\":");
+                quote(t.ident.as_str(), out);
+                out.push_str(",\"ty\":");
+                label(t.type_id, types, out);
+                out.push('}');
+            }
+            Item::Module(m) => {
+                out.push_str("{\"mod\":");
+                quote(m.ident.as_str(), out);
+                out.push_str(",\"ch\":");
+                items(&m.children, types, out);
+                out.push('}');
+            }
+            Item::Constant(c) => {
+                out.push_str("{\"const\":");
+                quote(c.ident.as_str(), out);
+                out.push_str(",\"ty\":");
+                label(c.type_id, types, out);
+                out.push('}');
+            }
+            Item::Impl(i) => {
+                out.push_str("{\"impl\":");
+                label(i.ty, types, out);
+                out.push_str(",\"ch\":");
+                items(&i.children, types, out);
+                out.push('}');
+            }
+            Item::Use(u) => {
+                out.push_str("{\"use\":[");
+                for (j, path) in u.imports.iter().enumerate() {
+                    if j > 0 {
+                        out.push(',');
+                    }
+                    out.push('[');
+                    for (i, seg) in path.iter().enumerate() {
+                        if i > 0 {
+                            out.push(',');
+                        }
+                        quote(seg, out);
+                    }
+                    out.push(']');
+                }
+                out.push_str("]}");
+            }
+        }
+    }
+    out.push(']');
+}
+
+/// The item tree of a library as JSON text.
+pub fn dump_library(lib: &Library, types: &[(TypeId, String)]) -> String {
+    let mut out = String::new();
+    items(&lib.items, types, &mut out);
+    out
+}
